@@ -35,7 +35,8 @@ One(p, cap, len, m, c, ext, n) ==
                 items |-> <<[k |-> "ins", pos |-> p, len |-> len]>>,
                 brk |-> IF m = "C" /\ len > free THEN 1 ELSE 0]
 
-\* A program: sequence of line lengths (0 = a line the parser rejects)
+\* A program: sequence of line lengths (0 = a line the parser rejects).  RunFrom is the definition: lines in order, stop at
+\* the first line that is rejected or finds no room.
 RECURSIVE RunFrom(_, _, _, _, _, _, _)
 RunFrom(p, cap, lens, m, c, ext, j) ==
   IF j > Len(lens) THEN [ok |-> TRUE, p |-> p, cap |-> cap, steps |-> <<>>, items |-> <<>>, brk |-> 0, why |-> "", at |-> 0]
@@ -45,7 +46,25 @@ RunFrom(p, cap, lens, m, c, ext, j) ==
        ELSE LET b == RunFrom(a.p, a.cap, lens, m, c, ext, j + 1) IN
             [ok |-> b.ok, p |-> b.p, cap |-> b.cap, steps |-> a.steps \o b.steps, items |-> a.items \o b.items,
              brk |-> a.brk + b.brk, why |-> b.why, at |-> b.at]
-Run(p, cap, lens, m, c, ext) == RunFrom(p, cap, lens, m, c, ext, 1)
+\* The same function evaluated by halving the range (the state p, cap is threaded left to right).  TLC's evaluation
+\* context grows with the recursion depth and every name lookup walks it, so the linear recursion above costs time quadratic
+\* in the program length (25 s for the 4 146 lines of the repository's test/mov.asm); this form has logarithmic depth.
+\* spec/AsmMechEquiv.tla has TLC check that both agree on every small program.
+RECURSIVE RunSeg(_, _, _, _, _, _, _, _)
+RunSeg(p, cap, lens, m, c, ext, lo, hi) ==
+  IF lo > hi THEN [ok |-> TRUE, p |-> p, cap |-> cap, steps |-> <<>>, items |-> <<>>, brk |-> 0, why |-> "", at |-> 0]
+  ELSE IF lo = hi
+  THEN (IF lens[lo] = 0 THEN [ok |-> FALSE, p |-> p, cap |-> cap, steps |-> <<>>, items |-> <<>>, brk |-> 0, why |-> "parse", at |-> lo]
+        ELSE LET a == One(p, cap, lens[lo], m, c, ext, 0) IN
+             IF ~a.ok THEN [ok |-> FALSE, p |-> p, cap |-> a.cap, steps |-> a.steps, items |-> a.items, brk |-> 0, why |-> "room", at |-> lo]
+             ELSE [ok |-> TRUE, p |-> a.p, cap |-> a.cap, steps |-> a.steps, items |-> a.items, brk |-> a.brk, why |-> "", at |-> 0])
+  ELSE LET mid == (lo + hi) \div 2
+           a   == RunSeg(p, cap, lens, m, c, ext, lo, mid)
+       IN IF ~a.ok THEN a
+          ELSE LET b == RunSeg(a.p, a.cap, lens, m, c, ext, mid + 1, hi) IN
+               [ok |-> b.ok, p |-> b.p, cap |-> b.cap, steps |-> a.steps \o b.steps, items |-> a.items \o b.items,
+                brk |-> a.brk + b.brk, why |-> b.why, at |-> b.at]
+Run(p, cap, lens, m, c, ext) == RunSeg(p, cap, lens, m, c, ext, 1, Len(lens))
 
 \* cells touched by the steps of a call
 Written(steps) == UNION { {s.pos + k : k \in 0..(s.len - 1)} : s \in {steps[j] : j \in {x \in 1..Len(steps) : steps[x].k # "grow"}} }
@@ -63,19 +82,45 @@ Apply(s, o, v)  == CASE s = "mov" -> SetMov(o, v) [] s = "swap" -> SetSwap(o, v)
 
 
 (* ---------------------------- reference definitions ---------------------- *)
-RECURSIVE Sum(_, _)
-Sum(lens, j) == IF j = 0 THEN 0 ELSE lens[j] + Sum(lens, j - 1)
+RECURSIVE SumDef(_, _)
+SumDef(lens, j) == IF j = 0 THEN 0 ELSE lens[j] + SumDef(lens, j - 1)
+RECURSIVE SumSeg(_, _, _)
+SumSeg(lens, lo, hi) == IF lo > hi THEN 0 ELSE IF lo = hi THEN lens[lo] ELSE LET mid == (lo + hi) \div 2 IN SumSeg(lens, lo, mid) + SumSeg(lens, mid + 1, hi)
+Sum(lens, j) == SumSeg(lens, 1, j)
 \* C14: instructions whose bytes, at their final positions, span two or more c-aligned chunks
-RefBreaks(lens, c, start) ==
+RefBreaksDef(lens, c, start) ==
   IF c < 2 THEN 0
-  ELSE Cardinality({j \in 1..Len(lens) : LET p == start + Sum(lens, j - 1) IN (p \div c) # ((p + lens[j] - 1) \div c)})
+  ELSE Cardinality({j \in 1..Len(lens) : LET p == start + SumDef(lens, j - 1) IN (p \div c) # ((p + lens[j] - 1) \div c)})
+RECURSIVE BreaksSeg(_, _, _, _, _)          \* [n: breaks in lo..hi, p: position after them]
+BreaksSeg(lens, c, p, lo, hi) ==
+  IF lo > hi THEN [n |-> 0, p |-> p]
+  ELSE IF lo = hi THEN [n |-> IF (p \div c) # ((p + lens[lo] - 1) \div c) THEN 1 ELSE 0, p |-> p + lens[lo]]
+  ELSE LET mid == (lo + hi) \div 2
+           a == BreaksSeg(lens, c, p, lo, mid)
+           b == BreaksSeg(lens, c, a.p, mid + 1, hi)
+       IN [n |-> a.n + b.n, p |-> b.p]
+RefBreaks(lens, c, start) == IF c < 2 THEN 0 ELSE BreaksSeg(lens, c, start, 1, Len(lens)).n
 \* C13: the reference layout of a fitted program: padding exactly where the next instruction (shorter than c) would cross
-RECURSIVE RefFit(_, _, _, _)
-RefFit(lens, c, p, j) ==
+RECURSIVE RefFitDef(_, _, _, _)
+RefFitDef(lens, c, p, j) ==
   IF j > Len(lens) THEN <<>>
   ELSE LET len  == lens[j]
            free == c - (p % c)
        IN IF len < c /\ len > free
-          THEN <<[k |-> "pad", pos |-> p, len |-> free], [k |-> "ins", pos |-> p + free, len |-> len]>> \o RefFit(lens, c, p + free + len, j + 1)
-          ELSE <<[k |-> "ins", pos |-> p, len |-> len]>> \o RefFit(lens, c, p + len, j + 1)
+          THEN <<[k |-> "pad", pos |-> p, len |-> free], [k |-> "ins", pos |-> p + free, len |-> len]>> \o RefFitDef(lens, c, p + free + len, j + 1)
+          ELSE <<[k |-> "ins", pos |-> p, len |-> len]>> \o RefFitDef(lens, c, p + len, j + 1)
+RECURSIVE FitSeg(_, _, _, _, _)             \* [items, p]
+FitSeg(lens, c, p, lo, hi) ==
+  IF lo > hi THEN [items |-> <<>>, p |-> p]
+  ELSE IF lo = hi
+  THEN LET len  == lens[lo]
+           free == c - (p % c)
+       IN IF len < c /\ len > free
+          THEN [items |-> <<[k |-> "pad", pos |-> p, len |-> free], [k |-> "ins", pos |-> p + free, len |-> len]>>, p |-> p + free + len]
+          ELSE [items |-> <<[k |-> "ins", pos |-> p, len |-> len]>>, p |-> p + len]
+  ELSE LET mid == (lo + hi) \div 2
+           a == FitSeg(lens, c, p, lo, mid)
+           b == FitSeg(lens, c, a.p, mid + 1, hi)
+       IN [items |-> a.items \o b.items, p |-> b.p]
+RefFit(lens, c, p, j) == FitSeg(lens, c, p, j, Len(lens)).items
 =============================================================================
